@@ -1,6 +1,7 @@
 package props
 
 import (
+	"strings"
 	"time"
 
 	"verif/explore"
@@ -47,7 +48,25 @@ var c32Triples = []string{
 	"pingA+pubB+ackA", "pubB+takeA+hk", "pubB+subA+close", "takeA+connC+close", "pubB+dropA+takeA", "pubA2+pubB+ackA", "discA+takeA+pubB", "hk+sys+pubB",
 }
 
+// c32Fault: the sequential write-fault / refused-packet histories of C34 judged only by the
+// lock monitors (a lock leaked on an error path blocks every later user of that client).
+func c32Fault(arg string) explore.HistFn {
+	inner := c34Run(arg)
+	return func(hist []string) explore.HistResult {
+		r := inner(hist)
+		var keep []explore.Violation
+		for _, v := range r.Viol {
+			if strings.HasPrefix(v.Key, "deadlock:") || strings.HasPrefix(v.Key, "reentrant-rlock:") || strings.HasPrefix(v.Key, "unlock-unlocked") {
+				keep = append(keep, v)
+			}
+		}
+		r.Viol = keep
+		return r
+	}
+}
+
 func init() {
+	explore.RegisterBFS("c32fault", c32Fault)
 	explore.RegisterDFS("c32", c32Run)
 	explore.Register("C32", func(c *explore.Ctx) {
 		c.Rep.Level = "model_checking"
@@ -61,6 +80,7 @@ func init() {
 			bounds = append(bounds, explore.Bounds{Preempt: 3})
 			per = 20 * time.Second
 		}
+		explore.RunBFS(c, "c32fault", "wb=64,pend=8,mps=48", 4, 12*time.Second)
 		for _, s := range scen {
 			if c.Expired() {
 				c.Rep.Capped("scenario " + s + " not started (deadline)")
